@@ -85,8 +85,8 @@ CHECKS["C12"] = (
 CHECKS["C11"] = (
     "exploration",
     "deterministic simulation of thread interleavings: real threads under a baton controller, seeded (random / PCT) choice of the next runner at every sched_point hook, Wing-Gong/Lowe linearizability search against the sequential cache specification, accounting check at quiescence",
-    "Seeded search over schedules of 2-3 tasks x 1-3 operations on one shared MemoryCache / DiskCache (1-2 keys, unique values, optional expired entry left by a sequential setup): every interleaving decision at the ~30 hook sites (between map operations, counter updates, temp-file open/write/fsync/rename, index update) is drawn from the seed and recorded; histories stamped with a global sequence number are checked for linearizability, spurious errors, torn/foreign values, and size()/usage against a probe of every key once all tasks finished.",
-    "Trusted: the sequential specification (map with expired-but-present entries), the hook placement (interleavings are explored at hook granularity under sequential consistency; nothing inside a DashMap operation or a held std lock; no weak-memory effects). DynamicContainer is exercised by a separate arm when its hooks are compiled in.",
+    "Seeded search over schedules of 2-3 tasks x 1-3 operations on one shared MemoryCache / DiskCache (1-2 keys, unique values, optional expired entry left by a sequential setup) or one shared DynamicContainer (write/read/query/remove on 1-2 encoding keys): every interleaving decision at the ~40 hook sites (between map operations, counter updates, temp-file open/write/fsync/rename, index update; for the container between archive write, index add and save, and inside the index temp-file protocol while the index lock is held through a try-lock wrapper) is drawn from the seed and recorded; histories stamped with a global sequence number are checked for linearizability, spurious errors, torn/foreign values, deadlock, and size()/usage against a probe of every key (container: a fresh instance on the same directory against the live one) once all tasks finished.",
+    "Trusted: the sequential specification (map with expired-but-present entries), the hook placement (interleavings are explored at hook granularity under sequential consistency; nothing inside a DashMap operation or a held std lock; no weak-memory effects); for the container the set specification (fixed content per key) and the rule that an Err is tolerated only for an operation overlapping a mutator of the same key.",
     "3/C11",
 )
 
